@@ -241,6 +241,12 @@ void h_waiters(void)
     OBT("C04-O5", cmb_event_pattern_count(wakeup_event_event, CMB_ANY_SUBJECT, CMB_ANY_OBJECT) == nw && cmb_event_queue_count() == cnt0 - 1u + nw, "nobody else is woken, nothing else is scheduled");
     const uint64_t hw = cmb_event_pattern_find(wakeup_event_event, w1, CMB_ANY_OBJECT);
     OBT("C04-O5", nw == 0 || (cmb_event_time(hw) == cmb_time() && cmb_event_priority(hw) == w1->priority), "the wake-up is scheduled at the current time with the waiter's priority");
+    /* a waiter that leaves after the event is gone: its wake-up is stopped, nobody else's */
+    if (nw >= 1) {
+        OBT("C04-O5", !cmi_event_remove_waiter(GH[tgt].h, w1) && cmb_event_pattern_count(wakeup_event_event, w1, CMB_ANY_OBJECT) == 0u
+                      && cmb_event_pattern_count(wakeup_event_event, w2, (void *)want) == (nw >= 2 ? 1u : 0u),
+            "remove_waiter for an event that has already executed / been cancelled stops the wake-up on its way to that process and nothing else");
+    }
     CANARY("event waiters: end reachable");
 }
 #endif
